@@ -210,7 +210,15 @@ func (configgen *ConfigGeneratorImpl) buildGatewayListeners(builder *ListenerBui
 	cs := builder.connectionSettings
 
 	listeners := make([]*listener.Listener, 0)
-	for _, ml := range mutableopts {
+	// mutableopts is a map: walk it in listener-name order so that the listeners are returned in the same
+	// order by every generation.
+	lnames := make([]string, 0, len(mutableopts))
+	for lname := range mutableopts {
+		lnames = append(lnames, lname)
+	}
+	sort.Strings(lnames)
+	for _, lname := range lnames {
+		ml := mutableopts[lname]
 		ml.mutable.Listener = buildGatewayListener(*ml.opts, ml.transport)
 
 		// Set listener-level buffer limit from ConnectionSettings.
